@@ -88,10 +88,11 @@ SignLied ==
 Shares == [i \in KSet |-> <<"z", i>>]
 
 \* coordinator with the honest public key package: must refuse
+AggModesH == <<"FirstCheater", "Disabled", "AllCheaters">>
 AggHonest ==
   /\ pc[1] = "aggH"
-  /\ ActAggregate(<<"sig", 0>>, PKG, Shares, PKP, "FirstCheater")
-  /\ pc' = <<"liepkp", 0>>
+  /\ ActAggregate(<<"sig", 0>>, PKG, Shares, PKP, AggModesH[pc[2] + 1])
+  /\ pc' = IF pc[2] = 2 THEN <<"liepkp", 0>> ELSE <<"aggH", pc[2] + 1>>
   /\ UNCHANGED sc
 
 \* coordinator lies too: threshold lowered (or absent, as in a pre-3.0 package)
@@ -145,7 +146,33 @@ Rl3 ==
   /\ ActRepair3(<<"kpR", X>>, [k \in 1..sc.t |-> <<"sigma", HSeq[k]>>], X, <<"pkpLegacy", 0>>)
   /\ pc' = <<"done", 0>> /\ UNCHANGED sc
 
-Next == KeyGen \/ MakeKp \/ Choose \/ RepairLegacy \/ Rl1 \/ Rl2 \/ Rl3 \/ DoCommit \/ DoPackage \/ SignHonest \/ ReconHonest \/ Lie
+\* The same for a distributed refresh run with a lower threshold while the old public key package is a
+\* pre-3.0 one: the threshold recorded in the participant's own key package decides, the refresh is refused,
+\* nobody ends up with a key package that enforces less than t.
+R2F == [i \in 1..16 |-> "rf2from" \o ToString(i)]
+IdSetAll == {sc.ids[k] : k \in 1..sc.n}
+RefreshLegacy ==
+  /\ pc[1] = "choose" /\ sc.t >= 3
+  /\ ActLieMin(<<"pkpLegacy", 0>>, PKP, -1)
+  /\ pc' = <<"rf1", 1>> /\ UNCHANGED sc
+Rf1 ==
+  /\ pc[1] = "rf1"
+  /\ LET i == sc.ids[pc[2]] IN
+       ActDkg1(<<"rf1s", i>>, <<"rf1p", i>>, i, sc.n, sc.t - 1, 0, [k \in 1..(sc.t - 2) |-> 1], 2, TRUE)
+  /\ Go(IF pc[2] = sc.n THEN <<"rf2", 1>> ELSE <<"rf1", pc[2] + 1>>) /\ UNCHANGED sc
+Rf2 ==
+  /\ pc[1] = "rf2"
+  /\ LET i == sc.ids[pc[2]] IN
+       ActDkg2(<<"rf2s", i>>, R2F[i], <<"rf1s", i>>, [l \in IdSetAll \ {i} |-> <<"rf1p", l>>], TRUE)
+  /\ Go(IF pc[2] = sc.n THEN <<"rf3", 0>> ELSE <<"rf2", pc[2] + 1>>) /\ UNCHANGED sc
+Rf3 ==
+  /\ pc[1] = "rf3"
+  /\ LET i == sc.ids[1] IN
+       ActDkg3(<<"kpF", i>>, <<"pkpF", i>>, <<"rf2s", i>>, [l \in IdSetAll \ {i} |-> <<"rf1p", l>>],
+               [l \in IdSetAll \ {i} |-> <<R2F[l], i>>], TRUE, <<"pkpLegacy", 0>>, <<"kp", i>>)
+  /\ pc' = <<"done", 0>> /\ UNCHANGED sc
+
+Next == RefreshLegacy \/ Rf1 \/ Rf2 \/ Rf3 \/ KeyGen \/ MakeKp \/ Choose \/ RepairLegacy \/ Rl1 \/ Rl2 \/ Rl3 \/ DoCommit \/ DoPackage \/ SignHonest \/ ReconHonest \/ Lie
         \/ SignLied \/ AggHonest \/ LiePkpStep \/ AggLied \/ DoVerify \/ ReconLied
 Spec == Init /\ [][Next]_vars
 
@@ -162,11 +189,16 @@ Coincidence == CoalitionValue = sc.key
 \* honest fields: the signer, the coordinator and reconstruct refuse
 InvRefuse ==
   /\ (last.op = "sign" /\ pc[1] \in {"signH", "reconH"}) => ~last.res.ok
-  /\ (last.op = "aggregate" /\ pc[1] = "liepkp") => ~last.res.ok
+  \* (the coordinator refuses on the count alone, in every detection mode, before any signature arithmetic)
+  /\ (last.op = "aggregate" /\ (pc[1] = "liepkp" \/ (pc[1] = "aggH" /\ pc[2] > 0))) =>
+        (~last.res.ok /\ last.res.err = "IncorrectNumberOfShares")
   /\ (last.op = "reconstruct" /\ pc[1] = "lie") => ~last.res.ok
 
 \* a repair through a public package without threshold yields no key package
 InvNoThresholdlessRepair == (last.op = "repair3" /\ pc[1] = "done") => ~last.res.ok
+
+\* a refresh cannot lower the threshold a key package enforces, whatever the public package says
+InvNoThresholdLoweringRefresh == (last.op = "dkg3" /\ pc[1] = "done") => ~last.res.ok
 
 \* lowered fields: a signature is released iff the coalition's shares happen to
 \* interpolate to the secret; then, and only then, it verifies under the group key
